@@ -680,6 +680,13 @@ func (w *WAL) AppendBatch(entries []*Entry) (uint64, error) {
 			payloadSize += 4 + len(entry.Value)
 		}
 
+		// Reject the batch before anything is written: a record that does not
+		// fit would otherwise fail half way and leave the earlier records of
+		// this batch in the buffer, to be flushed with the next append
+		if payloadSize > MaxRecordSize {
+			return 0, fmt.Errorf("batch entry too large: %d > %d", payloadSize, MaxRecordSize)
+		}
+
 		totalSize += HeaderSize + payloadSize
 	}
 
@@ -766,6 +773,13 @@ func (w *WAL) AppendBatchWithSequence(entries []*Entry, startSequence uint64) (u
 		payloadSize := 1 + 8 + 4 + len(entry.Key)
 		if entryType != OpTypeDelete {
 			payloadSize += 4 + len(entry.Value)
+		}
+
+		// Reject the batch before anything is written: a record that does not
+		// fit would otherwise fail half way and leave the earlier records of
+		// this batch in the buffer, to be flushed with the next append
+		if payloadSize > MaxRecordSize {
+			return 0, fmt.Errorf("batch entry too large: %d > %d", payloadSize, MaxRecordSize)
 		}
 
 		totalSize += HeaderSize + payloadSize
